@@ -344,3 +344,68 @@ def desugar_str_match(text):
         new = ' else '.join(parts) + ' else { %s }' % default
         log.append('D20 match on &str `%s`: %d literal arm(s) -> if / else-if chain' % (scrut, len(conds)))
         text = text[:m.start()] + new + text[bc + 1:]
+
+
+# ---------------------------------------------------------------------------------------------
+# D18: `for PAT in NAME { BODY }` where NAME is a local holding an iterator the dialect has no
+# for-loop support for (rowan's AstChildren)  ->  `let mut oq3_itfK = NAME; loop { match
+# oq3_itfK.next() { None => { break; } Some(PAT) => { BODY } } }` (the definition of `for`).
+# D21: destructuring assignment `(a, b) = EXPR;`  ->  `let (oq3_t1, oq3_t2) = EXPR; a = oq3_t1; b = oq3_t2;`
+def desugar_for_iter(text, names):
+    log = []
+    k = 0
+    for name in names:
+        while True:
+            rf = RustFile('<fn>', text)
+            code = rf.code
+            m = None
+            for mm in re.finditer(r'\bfor\s+([^{};]+?)\s+in\s+' + re.escape(name) + r'\s*\{', text):
+                if code[mm.start()]:
+                    m = mm
+                    break
+            if m is None:
+                break
+            k += 1
+            bo = m.end() - 1
+            bc = _match_close(text, code, bo)
+            it = 'oq3_itf%d' % k
+            new = ('let mut %s = %s;\n loop {\n match %s.next() {\n None => { break; }\n Some(%s) => {%s}\n }\n }'
+                   % (it, name, it, m.group(1).strip(), text[bo + 1:bc]))
+            text = text[:m.start()] + new + text[bc + 1:]
+            log.append('D18 for over `%s` -> loop / match next (%s)' % (name, it))
+    return text, log
+
+
+def desugar_destructuring_assignment(text):
+    log = []
+    k = 0
+    while True:
+        rf = RustFile('<fn>', text)
+        code = rf.code
+        m = None
+        for mm in re.finditer(r'(?m)^(\s*)\(\s*([A-Za-z_]\w*)\s*,\s*([A-Za-z_]\w*)\s*\)\s*=(?!=)', text):
+            if code[mm.start(2)]:
+                m = mm
+                break
+        if m is None:
+            return text, log
+        # end of the statement: the `;` at depth 0
+        d = 0
+        j = m.end()
+        while j < len(text):
+            if code[j]:
+                c = text[j]
+                if c in '([{':
+                    d += 1
+                elif c in ')]}':
+                    d -= 1
+                elif c == ';' and d == 0:
+                    break
+            j += 1
+        if j >= len(text):
+            raise NoRule('destructuring assignment without end')
+        k += 1
+        t1, t2 = 'oq3_t%da' % k, 'oq3_t%db' % k
+        new = '%slet (%s, %s) =%s; %s = %s; %s = %s;' % (m.group(1), t1, t2, text[m.end():j], m.group(2), t1, m.group(3), t2)
+        text = text[:m.start()] + new + text[j + 1:]
+        log.append('D21 destructuring assignment to (%s, %s)' % (m.group(2), m.group(3)))
